@@ -204,6 +204,7 @@ func addProtoFunctions(fm template.FuncMap, protoFile *protogen.File, names spec
 	fm["mapFieldGoType"] = mapFieldGoType(protoFile, goPackageForFile)
 	fm["hasRequiredFields"] = hasRequiredFields(protoFile)
 	fm["getSafeFieldName"] = getSafeFieldName(names)
+	fm["extensionGoType"] = extensionGoType(protoFile, goPackageForFile)
 	return fm
 }
 
@@ -478,5 +479,39 @@ func getSafeFieldName(names specialNames) func(string) string {
 			return name + "_"
 		}
 		return name
+	}
+}
+
+// extensionGoType returns the Go type of a single value of the proto2 extension field f: the scalar
+// Go type, the (package qualified) enum type, or a pointer to the (package qualified) message type.
+func extensionGoType(protoFile *protogen.File, goPackageForFile map[string]string) func(*protogen.Field) string {
+	prefix := getImportPrefix(protoFile, goPackageForFile)
+	return func(f *protogen.Field) string {
+		switch f.Desc.Kind() {
+		case protoreflect.BoolKind:
+			return "bool"
+		case protoreflect.Int32Kind, protoreflect.Sint32Kind, protoreflect.Sfixed32Kind:
+			return "int32"
+		case protoreflect.Int64Kind, protoreflect.Sint64Kind, protoreflect.Sfixed64Kind:
+			return "int64"
+		case protoreflect.Uint32Kind, protoreflect.Fixed32Kind:
+			return "uint32"
+		case protoreflect.Uint64Kind, protoreflect.Fixed64Kind:
+			return "uint64"
+		case protoreflect.FloatKind:
+			return "float32"
+		case protoreflect.DoubleKind:
+			return "float64"
+		case protoreflect.StringKind:
+			return "string"
+		case protoreflect.BytesKind:
+			return "[]byte"
+		case protoreflect.EnumKind:
+			return prefix(f.Enum) + f.Enum.GoIdent.GoName
+		case protoreflect.MessageKind:
+			return "*" + prefix(f.Message) + f.Message.GoIdent.GoName
+		default:
+			return fmt.Sprintf("<<invalid>> /*%v*/", f.Desc.Kind())
+		}
 	}
 }
